@@ -521,4 +521,41 @@ example :
     ∧ lastApplied ["A", "B"] (⟨[[1, 3, 5, 7], [2, 4, 9, 8]], 4⟩ : Mat ℤ) 1 [("x", "A", 0)] = some [] := by
   decide
 
+/-! ### a rejected schedule and the scheduling state of `run()` -/
+
+/-- "Rejected without changing any state" includes the scheduling state: when `_update_schedules`
+    raises inside `run()`, `_resolve`, `_last_schedule_update` and `schedule_history` are what they
+    were (the malformed schedule is not stored), so if the scheduler had to be called in this period it
+    has to be called again in the same period when `run()` is resumed.  An accepted (or empty) schedule
+    clears `_resolve`, records the period and is stored last in the history. -/
+theorem reject_keeps_scheduling_state (stations : List String) (s : SchedState K) (t : Nat)
+    (lastTs : Option Nat) (sched : Sched K) (k : Option Nat) :
+    (∀ e, schedStep stations s t lastTs sched = .error e →
+        schedStepState stations s t lastTs sched = s
+        ∧ mustSchedule (schedStepState stations s t lastTs sched) t k = mustSchedule s t k)
+    ∧ (∀ s', schedStep stations s t lastTs sched = .ok s' →
+        s'.resolve = false ∧ s'.lastUpdate = some t ∧ s'.history = s.history ++ [(t, sched)]
+        ∧ updateSchedules stations s.m t lastTs sched = .ok s'.m) := by
+  refine ⟨?_, ?_⟩
+  · intro e he
+    have : schedStepState stations s t lastTs sched = s := by simp [schedStepState, he]
+    exact ⟨this, by rw [this]⟩
+  · intro s' hs
+    unfold schedStep at hs
+    cases hu : updateSchedules stations s.m t lastTs sched with
+    | error e => rw [hu] at hs; cases hs
+    | ok m' =>
+      rw [hu] at hs
+      injection hs with hs
+      subst hs
+      exact ⟨rfl, rfl, rfl, rfl⟩
+
+/-- a ragged schedule in period 3 while a recompute is pending: error, and the scheduler is still due -/
+example :
+    let s : SchedState ℤ := ⟨Mat.zeros 2 5, true, some 1, [(1, [("A", [4])])]⟩
+    schedStep ["A", "B"] s 3 (some 4) [("A", [1]), ("B", [2, 3])] = .error .invalidSchedule
+    ∧ mustSchedule (schedStepState ["A", "B"] s 3 (some 4) [("A", [1]), ("B", [2, 3])]) 3 (some 2) = true
+    ∧ (schedStepState ["A", "B"] s 3 (some 4) [("A", [1]), ("B", [2, 3])]).history = [(1, [("A", [4])])] := by
+  refine ⟨rfl, rfl, rfl⟩
+
 end Acn.C04
